@@ -23,7 +23,7 @@ namespace Vector {
 				if (tmp == ObjectSignature) {
 					signature = tmp;
 				} else {
-					if (is.eof()) {
+					if (!is.good()) {
 						throw Exception("ObjectHeaderBase::read(): End of File.");
 					}
 
